@@ -4,12 +4,15 @@ import os
 from vlib import Infra, read_ndjson
 
 
-def check_C14(run):
+def pipeline(run):
+    """A: model check + export; replay; B1. Returns (harness summary, observation file) -- None when a replay bundle has no scenarios of this family."""
     run.build_harness()
     n = 4 if run.tier == "thorough" else 3
     scen = os.path.join(run.scratch, "gscen.ndjson")
     if run.replay:
         scen = os.path.join(run.replay, "scen-sig.ndjson")
+        if not os.path.exists(scen):
+            return {}, None
     else:
         run.model_check("MC_Signature", "SPECIFICATION Spec\nCONSTANTS\n  MaxParams = %d\nINVARIANTS A_AcceptsIffValid A_SourceAsStated A_Total\nCHECK_DEADLOCK FALSE\n" % n, workers=8, timeout=1800)
         out = run.tlc("Export_Signature", "INIT Init\nNEXT Next\nCONSTANTS\n  ScenOut = \"%s\"\n  MaxParams = %d\nCHECK_DEADLOCK FALSE\n" % (scen, n), workers=1, timeout=1800, role="export")
@@ -20,6 +23,12 @@ def check_C14(run):
     run.fam = "sig"
     run.scen_files["sig"] = scen
     run.validate_obs("Obs_Signature", obs)
+    return summ, obs
+
+
+def check_C14(run):
+    summ, obs = pipeline(run)
+    n = 4 if run.tier == "thorough" else 3
     kinds = set()
     for r in read_ndjson(obs):
         kinds.add((tuple(r["params"]), tuple(r["results"]), r["gen"], r["got"]))
